@@ -309,6 +309,39 @@ def fmt_fact(f):
     return f"{sh(f[1])} {f[0]} {sh(f[2])}"
 
 
+def _cap_len_nodes(e):
+    """(capacity-call node, len-call node) of one and the same Vec mentioned in e, else None"""
+    from rules.C14 import malsec_leaves_all
+    caps = [x for x in malsec_leaves_all(e) if x[0] == "call" and x[1].endswith("Vec::<T, A>::capacity")]
+    lens = [x for x in malsec_leaves_all(e) if x[0] == "call" and x[1].endswith("Vec::<T, A>::len")]
+    for c in caps:
+        for l in lens:
+            if flow.strip_casts(c[2][0]) == flow.strip_casts(l[2][0]):
+                return c, l
+    return None
+
+
+def fullness_fact(f):
+    """'full' if the edge fact f holds exactly when len(v) == capacity(v), 'room' if exactly when len(v) < capacity(v)
+    (evaluated for every 0 <= len <= capacity <= 6: `cap - len == 0`, `len < cap`, `len != cap`, `cap > len` ...); else None"""
+    from rules.C13 import guard_holds, NoEval
+    if f[1] is None:
+        return None
+    nodes = _cap_len_nodes(("t", f[1], f[2] if f[2] is not None else ("const", 0)))
+    if nodes is None:
+        return None
+    c, l = nodes
+    try:
+        truth = {(cap, ln): guard_holds(f, {c: cap, l: ln}) for cap in range(0, 7) for ln in range(0, cap + 1)}
+    except (NoEval, KeyError, TypeError):
+        return None
+    if all(v == (ln == cap) for (cap, ln), v in truth.items()):
+        return "full"
+    if all(v == (ln < cap) for (cap, ln), v in truth.items()):
+        return "room"
+    return None
+
+
 # ---------------------------------------------------------------------------------------------
 def loss_len(ctx, facts, rb):
     ctx.rule("LOSS: every value removed from the deque in read_bytes flows into the returned Bytes (directly or via extend_from_slice into the returned Vec); a chunk is dropped only on the is_empty() edge")
@@ -347,15 +380,19 @@ def loss_len(ctx, facts, rb):
     ctx.ob("LEN", "read_bytes:out-capacity-is-len", okv, "out = Vec::with_capacity(len)" if okv else "the gather buffer's capacity is not `len` (the loop's exit condition no longer means `len` bytes were gathered)", site_of(rb))
     rem_e = ("bin", "Sub", ("call", "std::vec::Vec::<T, A>::capacity", (vec,)), ("call", "std::vec::Vec::<T, A>::len", (vec,)))
     gret = [bb for bb, p in some.items() if flow.strip_casts(p)[0] == "call" and flow.strip_casts(p)[1].endswith("From::from")]
-    exits = []
+    exits = []      # (switch, (edge on which more bytes are needed, edge on which the buffer is full)) - whatever form the test has
     for bb in sorted(rb.live_blocks()):
         t = rb.term(bb)
         if t["k"] != "switch":
             continue
-        e = flow.expr_of(rb, t["o"])
         ed = flow.switch_edges(rb, bb)
-        if ed and e == ("bin", "Eq", rem_e, ("const", 0)):
-            exits.append((bb, ed))
+        if not ed:
+            continue
+        kinds = {tgt: fullness_fact(f) for tgt, f in flow.edge_guards(rb) if tgt in ed and _cap_len_nodes(("t", f[1], f[2] or ("const", 0))) and flow.strip_casts(_cap_len_nodes(("t", f[1], f[2] or ("const", 0)))[0][2][0]) == vec}
+        full = [tgt for tgt, k in kinds.items() if k == "full"]
+        room = [tgt for tgt, k in kinds.items() if k == "room"]
+        if len(full) == 1 and len(room) == 1 and full[0] != room[0] and rb.term(bb).get("o") is not None and any(bb in rb.preds(x) for x in full):
+            exits.append((bb, (room[0], full[0])))
     okx = bool(exits) and all(any(flow.dominates(dom, ed[1], g) for _, ed in exits) for g in gret) and all(not any(g in rb.reachable(ed[0], avoid=frozenset([x[0] for x in exits])) for g in gret) for _, ed in exits)
     ctx.ob("LEN", "read_bytes:gather-exits-only-when-full", okx, "the gathered return is reached only through `capacity - len == 0`" if okx else "the gather loop can return before (or its exit test is not) `remaining == 0`: short or over-long records", site_of(rb, exits[0][0]) if exits else site_of(rb))
     # per-iteration amount: split_to(remaining) under `front.len() > remaining` (or >=); whole chunk otherwise
@@ -429,7 +466,7 @@ def discharge(facts, b, dom, bb, kind, fn, args):
             return False, "buffered[0] without the dominating guards `buffered_size >= len` and `len != 0`: panics on an empty deque (not enough data buffered)"
         # inside the gather loop the site must also be behind `remaining != 0`
         if bb in b.reachable(b.succs(bb)[0]) and removals_before(b, bb):
-            g3 = holds(b, dom, bb, lambda f: f[0] == "Ne" and f[2] == ("const", 0) and "capacity" in str(f[1]))
+            g3 = holds(b, dom, bb, lambda f: fullness_fact(f) == "room")
             if not g3:
                 return False, "front chunk accessed in the gather loop without the dominating `remaining != 0` test: once `len` bytes are gathered the deque may be empty"
         return True, "front chunk exists: buffered_size >= len > 0 on this path (with COUNT)"
@@ -451,7 +488,7 @@ def discharge(facts, b, dom, bb, kind, fn, args):
             return discharge(facts, b, dom, bb, "front-index", fn, [a0[2][0], ("const", 0)])
         if a0[0] == "call" and a0[1].endswith("pop_front") and is_deque(a0[2][0]):
             g1 = holds(b, dom, bb, lambda f: f[0] in ("Ge", "Gt") and is_size(f[1]) or f[0] in ("Le", "Lt") and is_size(f[2]))
-            g2 = holds(b, dom, bb, lambda f: f[0] == "Ne" and f[2] == ("const", 0) and "capacity" in str(f[1]))
+            g2 = holds(b, dom, bb, lambda f: fullness_fact(f) == "room")
             ok = g1 and g2
             return ok, ("more bytes are still needed (remaining != 0) and buffered_size >= len: a chunk exists" if ok else "pop_front().unwrap() without the dominating guards `buffered_size >= len` and `remaining != 0`: panics when the deque runs out")
         return False, f"unwrap/expect on `{s[:80]}` has no recorded discharge: a malformed or oddly chunked body can panic here"
@@ -719,7 +756,8 @@ def state(ctx, facts):
         ctx.ob("STATE", "carried-state-stored-back", lost is None, "the length prefix held in a local during the poll is written back to pending_len before every return" if lost is None else "the pending length prefix is held in a local and a return (e.g. Poll::Pending while waiting for the rest of the record) is reachable without writing it back: the prefix is lost and the next poll parses payload bytes as a length", site_of(b, lost) if lost is not None else site_of(b, take_bb))
         writes = lw
     ctx.floor("STATE", "pending_len writes", len(writes), 2)
-    body_reads = [(bb, t) for bb, t in b.calls() if (F.callee(t)[0] or "") == BD + "read_bytes"]
+    readers = length_passthrough_readers(facts)
+    body_reads = [(bb, t) for bb, t in b.calls() if (F.callee(t)[0] or "") in readers]
     if len(body_reads) != 1:
         ctx.missing("STATE", "single read_bytes(pending) in LengthDelimitedStream::poll_next")
         return
@@ -755,6 +793,23 @@ def state(ctx, facts):
             ctx.ob("STATE", "cleared-only-after-body-read", ok, "pending_len = None only once the record body was obtained" if ok else "pending_len is cleared on a path on which the record body was not read (the next bytes are parsed as a length: desynchronised framing when a record straddles chunks)", site_of(b, bb, idx))
         else:
             ctx.ob("STATE", f"write#{k}", False, f"unrecognised write to pending_len: {str(e)[:80]}", site_of(b, bb, idx))
+
+
+def length_passthrough_readers(facts):
+    """read_bytes and every BufDeque method that only forwards its own length argument to a single read_bytes call
+    (a helper such as `read_payload(len)` = `if len == 0 { Some(empty) } else { self.read_bytes(len) }`): callers of
+    such a helper read `len` bytes exactly as if they had called read_bytes themselves"""
+    out = {BD + "read_bytes"}
+    for p, wb in facts.bodies.items():
+        if not p.startswith(BD) or p == BD + "read_bytes" or "::{closure" in p or facts.is_test_path(p):
+            continue
+        cs = [t for bb, t in wb.calls() if (F.callee(t)[0] or "") == BD + "read_bytes"]
+        if len(cs) != 1:
+            continue
+        a = [flow.strip_casts(flow.expr_of(wb, x, max_depth=6)) for x in cs[0]["args"]]
+        if len(a) == 2 and a[0] == ("arg", 1) and a[1] == ("arg", 2) and not removals(wb):
+            out.add(p)
+    return out
 
 
 # ---------------------------------------------------------------------------------------------
@@ -895,7 +950,7 @@ def deferred_error_first(ctx, facts):
     dom = b.dominators()
     takes = [bb for bb, t in b.calls() if (F.callee(t)[0] or "").endswith("Option::<T>::take") and "pending_err" in str(flow.expr_of(b, t["args"][0], max_depth=12))]
     stores = [bb for bb, idx, st in b.iter_assigns() if len(st["p"]) > 1 and any(isinstance(x, list) and x[0] == "f" and x[2:] == ["pending_err"] for x in st["p"]) and "'Some'" in str(flow.expr_of(b, st["r"]["o"], max_depth=8) if st["r"]["k"] == "use" else "")]
-    reads = [bb for bb, t in b.calls() if re.search(r"BufDeque::(read_bytes|read_infallible|try_read|read_multi)$", F.callee(t)[0] or "")]
+    reads = [bb for bb, t in b.calls() if re.search(r"BufDeque::(read_bytes|read_infallible|try_read|read_multi)$", F.callee(t)[0] or "") or (F.callee(t)[0] or "") in length_passthrough_readers(facts)]
     if not stores and not takes:
         ctx.ob("ITEMS-order", "no-deferred-error", True, "errors are not deferred in this version", site_of(b))
         return
